@@ -240,6 +240,11 @@ func runC01(c *wk.Ctx) {
 				c.Eval(wk.Hash64(descr, "colliding", cmpx.Canon(in)), true)
 				c01Chain(c, sub, descr, in, false)
 			}
+			if in, ok := gen.AddCollidingSpelling(r, gen.CopyRaw(raw)); ok {
+				c.Count("inputs_with_colliding_key_spellings")
+				c.Eval(wk.Hash64(descr, "colliding-spelling", cmpx.Canon(in)), true)
+				c01Chain(c, sub, descr, in, false)
+			}
 		}
 		if idx < 4 {
 			c.Sample("schema", descr)
